@@ -98,19 +98,17 @@ func c05(args []string) int {
 	handle := func(r *caseResult) {
 		ev.Eval(1)
 		p := r.prog
-		if len(r.crashes) > 0 || r.hang {
-			return
-		}
 		ev.Nontrivial(p.ID)
-		// r.diags come from a forward pass that already ran on pk: fingerprints around a second forward pass
-		// would miss a first-run-only write, so re-load a pristine tree for the fingerprinted pass.
-		pk1 := harness.Load(p.Path, p.Files)
-		defer pk1.Release()
-		if len(pk1.Errs) > 0 && !allowCaseOrder(p) {
-			return
-		}
+		// The fingerprinted pass is the FIRST analysis of this tree by this long-lived set (a write that
+		// only happens on first contact must fall inside the window).
+		pk1 := r.pkg
+		var fwdDiags []harness.Diag
 		if p.Fam == "testdata" {
 			stepwise(r.set, p, pk1)
+			// forward diagnostics for the order leg from a further pristine tree
+			pkf := harness.Load(p.Path, p.Files)
+			fwdDiags, _ = r.set.VisitAll(pkf)
+			pkf.Release()
 		} else {
 			// cheap path: one fingerprint before and after the whole set per file; bisect on mismatch
 			bad := false
@@ -121,19 +119,34 @@ func c05(args []string) int {
 				r.set.Ctx.SetFileInfo(pk1.Names[fi], pk1.Files[fi])
 				before := takeSnapshot(r.set, pk1)
 				for _, c := range r.set.Checkers {
-					harness.CheckOne(c, pk1.Files[fi])
+					d, crash := harness.CheckOne(c, pk1.Files[fi])
+					if crash != nil {
+						return // crashes are C01's subject
+					}
+					fwdDiags = append(fwdDiags, d...)
 				}
 				after := takeSnapshot(r.set, pk1)
 				mu.Lock()
 				nFP++
 				mu.Unlock()
-				if before.diff(after) != "" {
+				if d := before.diff(after); d != "" {
 					bad = true
+					// which checker? replay one by one on a pristine tree; a first-contact-only write may not
+					// repeat, so the coarse finding is reported as well
+					ev.Violate(evidence.Violation{
+						Key:      "set|writes|" + d,
+						What:     "analysing a file changes the shared input (" + d + ")",
+						Observed: fmt.Sprintf("fingerprint of %s changed while the checker set analysed %s of %s", d, pk1.Names[fi], p.ID),
+						Replay:   progReplay(p, ""),
+					})
 				}
 			}
 			if bad {
+				// attribute it: per-checker stepping on a pristine tree with a fresh set (first contact again)
 				pk2 := harness.Load(p.Path, p.Files)
-				stepwise(r.set, p, pk2)
+				if fs, err := harness.NewSet(harness.Infos(nil), ""); err == nil {
+					stepwise(fs, p, pk2)
+				}
 				pk2.Release()
 			}
 		}
@@ -153,7 +166,7 @@ func c05(args []string) int {
 			}
 		}
 		fwd := map[string][]string{}
-		for _, d := range r.diags {
+		for _, d := range fwdDiags {
 			fwd[d.Checker] = append(fwd[d.Checker], d.String())
 		}
 		var names []string
@@ -193,7 +206,7 @@ func c05(args []string) int {
 			progenum.Shadow(false, emit)
 		}
 	}
-	st := runCorpus(corpus, runOpts{allowErrors: allowCaseOrder}, handle)
+	st := runCorpus(corpus, runOpts{allowErrors: allowCaseOrder, noVisit: true}, handle)
 	ev.Set("programs_run", st.ran)
 	ev.Set("fingerprint_comparisons", nFP)
 	ev.Set("checkers_per_program", len(harness.Infos(nil)))
